@@ -675,3 +675,34 @@ pub mod verif_hooks_solver {
         solver.default_start()
     }
 }
+
+// verification hooks (feature `verif-hooks`): add-only call-through to the four private
+// strategy checkpoints of the main loop
+#[cfg(feature = "verif-hooks")]
+pub mod verif_hooks_checkpoints {
+    use super::internal::*;
+    use super::*;
+
+    /// `which`: 0 insufficient_progress, 1 numerical_error(flag), 2 small_step(alpha),
+    /// 3 is_scaling_success(flag).  Returns the Debug rendering of the checkpoint.
+    pub fn strategy_checkpoint(
+        solver: &mut crate::solver::DefaultSolver<f64>,
+        which: u8,
+        flag: bool,
+        alpha: f64,
+        dual: bool,
+    ) -> String {
+        let scaling = if dual {
+            ScalingStrategy::Dual
+        } else {
+            ScalingStrategy::PrimalDual
+        };
+        let out = match which {
+            0 => solver.strategy_checkpoint_insufficient_progress(scaling),
+            1 => solver.strategy_checkpoint_numerical_error(flag, scaling),
+            2 => solver.strategy_checkpoint_small_step(alpha, scaling),
+            _ => solver.strategy_checkpoint_is_scaling_success(flag, scaling),
+        };
+        format!("{:?}", out)
+    }
+}
